@@ -246,6 +246,16 @@ func (c *c19ctx) familyC() {
 	if outFmt != "yaml" {
 		fl = append(fl, "-o="+outFmt)
 	}
+	// companions: flags that change HOW results are printed must not change WHETHER they count
+	for _, comp := range []struct {
+		flag string
+		one  int
+	}{{"-0", 3}, {"-N", 4}, {"--unwrapScalar=false", 4}, {"-P", 5}, {"-C", 6}, {"-M", 6}, {"-I0", 5}} {
+		if c.r.IntN(comp.one) == 0 {
+			fl = append(fl, comp.flag)
+			c.tag("companion:" + comp.flag)
+		}
+	}
 	c.tag("out:"+outFmt, "flag:"+eflag, fmt.Sprintf("results:%d", min(len(vals), 4)), fmt.Sprintf("expect_status:%d", expect))
 	base := c.yq(nil, append(append(append(append([]string{}, mode...), fl...), expr), args...)...)
 	test := c.yq(nil, append(append(append(append(append([]string{}, mode...), eflag), fl...), expr), args...)...)
